@@ -165,6 +165,17 @@ var c21SelfTests = []SelfTest{
 		{File: "internal/socks5/handler.go", Old: "\tauthenticators []Authenticator\n\tdialer         Dialer\n", New: "\tauthenticators []Authenticator\n\tdialer         Dialer\n\tcommands       map[byte]func(net.Conn, *Request) error\n"},
 		{File: "internal/socks5/handler.go", Old: "\treturn &Handler{\n\t\tauthenticators:   auths,\n\t\tdialer:           dialer,\n\t\tudpAssociations:  make(map[uint64]*UDPAssociation),\n\t\ticmpAssociations: make(map[uint64]*ICMPAssociation),\n\t}\n", New: "\th := &Handler{\n\t\tauthenticators:   auths,\n\t\tdialer:           dialer,\n\t\tudpAssociations:  make(map[uint64]*UDPAssociation),\n\t\ticmpAssociations: make(map[uint64]*ICMPAssociation),\n\t}\n\th.commands = map[byte]func(net.Conn, *Request) error{\n\t\tCmdConnect:      h.handleConnect,\n\t\tCmdUDPAssociate: h.handleUDPAssociate,\n\t\tCmdICMPEcho:     h.handleICMPEcho,\n\t}\n\treturn h\n"},
 	}},
+	{Name: "rewrite: empty-list default in one helper shared by NewHandler and NewServer", Edits: []Edit{
+		{File: "internal/socks5/handler.go", Old: "\tif len(auths) == 0 {\n\t\tauths = []Authenticator{&NoAuthAuthenticator{}}\n\t}\n", New: "\tauths = authenticatorsOrDefault(auths)\n"},
+		{File: "internal/socks5/server.go", Old: "\tif len(cfg.Authenticators) == 0 {\n\t\tcfg.Authenticators = []Authenticator{&NoAuthAuthenticator{}}\n\t}\n", New: "\tcfg.Authenticators = authenticatorsOrDefault(cfg.Authenticators)\n"},
+		{File: "internal/socks5/auth.go", Old: "// AuthConfig holds authentication configuration.\n", New: "func authenticatorsOrDefault(auths []Authenticator) []Authenticator {\n\tif len(auths) > 0 {\n\t\treturn auths\n\t}\n\treturn []Authenticator{&NoAuthAuthenticator{}}\n}\n\n// AuthConfig holds authentication configuration.\n"},
+	}},
+	{Name: "shared default helper plus an empty list for an empty user set", ExpectRule: "C21.R3", Edits: []Edit{
+		{File: "internal/socks5/handler.go", Old: "\tif len(auths) == 0 {\n\t\tauths = []Authenticator{&NoAuthAuthenticator{}}\n\t}\n", New: "\tauths = authenticatorsOrDefault(auths)\n"},
+		{File: "internal/socks5/server.go", Old: "\tif len(cfg.Authenticators) == 0 {\n\t\tcfg.Authenticators = []Authenticator{&NoAuthAuthenticator{}}\n\t}\n", New: "\tcfg.Authenticators = authenticatorsOrDefault(cfg.Authenticators)\n"},
+		{File: "internal/socks5/auth.go", Old: "// AuthConfig holds authentication configuration.\n", New: "func authenticatorsOrDefault(auths []Authenticator) []Authenticator {\n\tif len(auths) > 0 {\n\t\treturn auths\n\t}\n\treturn []Authenticator{&NoAuthAuthenticator{}}\n}\n\n// AuthConfig holds authentication configuration.\n"},
+		{File: "internal/socks5/auth.go", Old: "\t\t} else {\n\t\t\t// Fall back to plaintext credentials (deprecated)\n\t\t\tcreds = StaticCredentials(cfg.Users)\n\t\t}\n\t\tauths = append(auths, NewUserPassAuthenticator(creds))\n", New: "\t\t} else if len(cfg.Users) > 0 {\n\t\t\tcreds = StaticCredentials(cfg.Users)\n\t\t}\n\t\tif creds != nil {\n\t\t\tauths = append(auths, NewUserPassAuthenticator(creds))\n\t\t}\n"},
+	}},
 	{Name: "rewrite: agent builds the list itself, server relies on NewHandler's default", Edits: []Edit{
 		{File: "internal/agent/agent.go", Old: "\treturn socks5.CreateAuthenticators(socks5.AuthConfig{\n\t\tEnabled:     true,\n\t\tRequired:    true,\n\t\tUsers:       users,\n\t\tHashedUsers: hashedUsers,\n\t})\n", New: "\tvar creds socks5.CredentialStore = socks5.StaticCredentials(users)\n\tif len(hashedUsers) > 0 {\n\t\tcreds = socks5.HashedCredentials(hashedUsers)\n\t}\n\tauths := make([]socks5.Authenticator, 0, 1)\n\tauths = append(auths, socks5.NewUserPassAuthenticator(creds))\n\treturn auths\n"},
 		{File: "internal/socks5/server.go", Old: "\tif len(cfg.Authenticators) == 0 {\n\t\tcfg.Authenticators = []Authenticator{&NoAuthAuthenticator{}}\n\t}\n", New: ""},
@@ -1125,6 +1136,16 @@ type c21Pending struct {
 	opts []c21List
 }
 
+// frameKey identifies frame fi of this evaluator by the call sites that lead to it, so that the
+// same helper inlined at two different sites (or depths) has two different identities.
+func (e *c21Eval) frameKey(fi int) string {
+	var b strings.Builder
+	for _, fr := range e.chain[fi:] {
+		fmt.Fprintf(&b, "%p/%p;", fr.fn, fr.site)
+	}
+	return b.String()
+}
+
 func c21Top(why string) []c21List { return []c21List{{top: true, why: why}} }
 
 func c21Dedup(in []c21List) []c21List {
@@ -1152,7 +1173,7 @@ func (e *c21Eval) choose(v ssa.Value, fi int, shapes []c21List) []c21List {
 	if len(shapes) <= 1 {
 		return shapes
 	}
-	key := fmt.Sprintf("%d|%p", fi, v)
+	key := e.frameKey(fi) + fmt.Sprintf("|%p", v)
 	if s, ok := e.world[key]; ok {
 		return []c21List{s}
 	}
@@ -1167,7 +1188,7 @@ func (e *c21Eval) evalList(v ssa.Value, fi int) []c21List {
 	if e.steps > 20000 {
 		return c21Top("evaluation budget exceeded")
 	}
-	akey := fmt.Sprintf("L%d|%p", fi, v)
+	akey := "L" + e.frameKey(fi) + fmt.Sprintf("|%p", v)
 	if e.active[akey] {
 		return nil // cyclic dependency (loop-carried value): contributes nothing new
 	}
@@ -1607,7 +1628,7 @@ func (e *c21Eval) evalBool(v ssa.Value, fi int) (bool, bool) {
 	if e.steps > 20000 {
 		return false, false
 	}
-	akey := fmt.Sprintf("B%d|%p", fi, v)
+	akey := "B" + e.frameKey(fi) + fmt.Sprintf("|%p", v)
 	if e.active[akey] {
 		return false, false
 	}
